@@ -215,8 +215,14 @@ def r19_4(run):
         # <dict>[<property name>] = <local loader>(<file stem>)   (unconditional entries only: the heating values are optional)
         if len(s_.index) == 1 and s_.index[0][0] == "c" and isinstance(s_.index[0][1], str) and not s_.loops and not \
                 any(c_[0] == "cmp" and ("c", "gas") in (c_[2], c_[3]) for c_, _p in s_.cond) \
-                and s_.value[0] == "call" and s_.value[1][0] == "localfn" and s_.value[2] and s_.value[2][0][0] == "c":
-            opened.append((s_.index[0][1], s_.value[1][1], s_.value[2][0][1]))
+                and s_.value[0] == "call":
+            # (the local loader functions are substituted) <PropertyClass>.from_path(os.path.join(pp_dir, "properties", fluid, "<stem>.txt"))
+            from ..arrnf import walk as _walk
+            joins = [x for x in _walk(s_.value) if x[0] == "call" and x[1] == ("x", "os.path.join") and x[2]
+                     and x[2][-1][0] == "c" and isinstance(x[2][-1][1], str) and x[2][-1][1].endswith(".txt")]
+            kind = s_.value[1][1][1].rsplit(".", 1)[-1] if s_.value[1][0] == "attr" and s_.value[1][1][0] == "f" else "?"
+            if len(joins) == 1:
+                opened.append((s_.index[0][1], kind, joins[0][2][-1][1][:-4]))
     run.ob("call_lib|properties-found", len(opened) >= 6, "properties opened by call_lib: %s" % opened, run.where(cl, cl.node))
     for fluid in liquids + gases:
         d = os.path.join(base, fluid)
@@ -226,7 +232,7 @@ def r19_4(run):
             if not os.path.isfile(p):
                 continue
             vals = _load(p)
-            if kind == "interextra_property":
+            if kind == "FluidPropertyInterExtra":
                 xs = [r[0] for r in vals]
                 ok = len(xs) >= 2 and all(math.isfinite(v) for r in vals for v in r) and all(b > a for a, b in zip(xs, xs[1:]))
                 run.ob("table|%s|%s|monotone-finite" % (fluid, fname), ok,
